@@ -40,6 +40,16 @@ CHECKS = {
          "Permitted EDIF side effects: dependency-respecting reorder and added EDIF.identifier/EDIF.rename entries."),
  "C17": ("disk", "B", "Seeded search over adversarial sibling names in every scope; identifiers checked against an independent EDIF grammar and for case-insensitive uniqueness; the exported file is read back and the names compared.",
          "Names contain no double quote/newline/percent; whole cables are not named stem[digits]; one open finding (bus with '&_' identifier) is listed."),
+ "C04": ("textgen+disk", "B", "Seeded search: netlists parsed from generated structural Verilog (or bundled examples), optionally transformed by uniquify/flatten/clone, written with seeded options to the simulated disk, optionally across a process restart, and parsed again; modules, ports, cables, instances and the bit-level endpoint partition are compared before and after.",
+         "Names are compared modulo Verilog escaping; modules nothing instantiates any more are compared by ports only; one open finding (assign spread over several cables after flatten) is listed."),
+ "C05": ("textgen", "B", "Seeded search: abstract designs rendered to EDIF by an independent writer with seeded syntactic freedom (keyword and reference case, renames, member indices, bus bits in any order with gaps, comments, property types, design construct anywhere), parsed from the simulated disk under a seeded chunk law / policy / listener configuration and compared with the form derived from the design.",
+         "Port base indices are not compared; bus nets get plain names; the configuration 'namespace plugin deregistered' is combined with exact-case references only."),
+ "C06": ("textgen", "B", "Seeded search: abstract designs rendered to structural Verilog by an independent writer (any module order, ANSI / header-only ports, named and positional maps, selects, concatenations, constants, implied nets, escaped identifiers, celldefine or undeclared primitives, parameters, attributes, assigns), parsed from the simulated disk under a seeded chunk law and compared bit by bit with the model.",
+         "Module ports based at 0; equal-width assigns; no positional maps on never-declared primitives."),
+ "C18": ("textgen+disk", "B", "Seeded search: abstract flat designs rendered to EBLIF by an independent writer (statement order, .conn, unconn, continuations, comments, black boxes declared or not), parsed and compared with the model, then written, optionally across a restart, re-read and compared by instance name and pin partition.",
+         "The design is the first model of the file unless an instantiated black box precedes it; latch 'type'/'init-val' fields are not nets; .cname values are not net names."),
+ "C20": ("disk+hier", "C", "Seeded search: a named netlist, a faithful copy (clone, write-then-read in its own format, or parsing the same file twice), one Comparer run that must return, exactly one effective structural fault from the documented list on the copy, one Comparer run that must raise.",
+         "Names contain no wildcard characters; designs avoid the open EDIF round-trip findings so that copies are faithful."),
 }
 
 def main():
